@@ -9,11 +9,14 @@
 #include "msa_struct.h"
 #include "alphabet.h"
 
+#ifndef VK_NAME_CAP
+#define VK_NAME_CAP MSA_NAME_LEN   /* harnesses whose names are short may shrink this so that CBMC's array field sensitivity (<=64 elements) applies */
+#endif
 static struct msa_seq *vk_mk_seq(int alloc_len)
 {
         struct msa_seq *q = malloc(sizeof(struct msa_seq));
         __CPROVER_assume(q != NULL);
-        q->name = malloc(MSA_NAME_LEN);
+        q->name = malloc(VK_NAME_CAP);
         q->seq = malloc(alloc_len);
         q->s = malloc(alloc_len);
         q->gaps = malloc(sizeof(int) * (alloc_len + 1));
